@@ -779,6 +779,25 @@ func (v Value) toReflectValue(typ reflect.Type) (reflect.Value, error) {
 	}
 
 	switch kind {
+	case reflect.Int, reflect.Int64, reflect.Uint, reflect.Uint64:
+		// A number that was set from Go still carries its exact integer: convert it
+		// exactly instead of through float64 (which rounds beyond 2^53 and turns
+		// MaxInt64 / MaxUint64 into 2^63 / 2^64).
+		if i, u, ok := goInteger(v.value); ok {
+			signed := kind == reflect.Int || kind == reflect.Int64
+			switch {
+			case signed && i < 0 && !reflect.Zero(typ).OverflowInt(i):
+				return reflect.ValueOf(i).Convert(typ), nil
+			case signed && i == 0 && u <= math.MaxInt64 && !reflect.Zero(typ).OverflowInt(int64(u)):
+				return reflect.ValueOf(int64(u)).Convert(typ), nil
+			case !signed && i == 0 && !reflect.Zero(typ).OverflowUint(u):
+				return reflect.ValueOf(u).Convert(typ), nil
+			}
+			return reflect.Value{}, fmt.Errorf("RangeError: %v to %v", v, kind)
+		}
+	}
+
+	switch kind {
 	case reflect.Bool: // Bool
 		return reflect.ValueOf(v.bool()).Convert(typ), nil
 	case reflect.Int: // Int
@@ -917,6 +936,22 @@ func reflectConversionError(err error) ottoError {
 		}
 	}
 	return newError(nil, "TypeError", 0, "%s", msg)
+}
+
+// goInteger returns the exact value of a Go integer payload: negative values
+// in i (u is 0), all others in u (i is 0).
+func goInteger(value interface{}) (i int64, u uint64, ok bool) {
+	rv := reflect.ValueOf(value)
+	switch rv.Kind() {
+	case reflect.Int, reflect.Int8, reflect.Int16, reflect.Int32, reflect.Int64:
+		if rv.Int() < 0 {
+			return rv.Int(), 0, true
+		}
+		return 0, uint64(rv.Int()), true
+	case reflect.Uint, reflect.Uint8, reflect.Uint16, reflect.Uint32, reflect.Uint64:
+		return 0, rv.Uint(), true
+	}
+	return 0, 0, false
 }
 
 func stringToReflectValue(value string, kind reflect.Kind) (reflect.Value, error) {
